@@ -13,7 +13,9 @@ Direct observation of what the model cannot exhibit (real threads, real hash see
      hypothesis of Props/C06.v C06_multi_hash_order_irrelevant / C06_multi_end_to_end:
        Proofs.C06Multi.ws_ambiguity (collect arrivals) = Spec.C06MultiSpec.ws_imports_ambiguity on the type table,
        annotated types and merged import sets the collector holds (class 1 one-name-imported-from-two-crates-that-
-       rename-it-differently, class 2 import-falls-back-to-one-of-several-crates-generating-the-name),
+       rename-it-differently, class 2 import-falls-back-to-one-of-several-crates-generating-the-name - judged on the
+       imports as reconcile_aliases puts them back, under the generated names: an import of a serde-renamed type
+       resolves in its crate since the /repo fix of finding C14-renamed-import and is no fallback case any more),
      extracted (coq/Extract/parts/C06multi.ext) and evaluated by the driver command c06_ws_class
      (ocaml/drv_c06multi.ml) on the `libdrive ast` of every file of the workspace: Model.parse_workspace under the
      identity oracle, Model.collect, ws_ambiguity; the command also reports all_distinct_b (hypothesis all_distinct)
@@ -25,8 +27,9 @@ Direct observation of what the model cannot exhibit (real threads, real hash see
      a sample of disagreements in the notes). Known differences: Gallina counts a no-op #[serde(rename = "Item")]
      on struct Item as a rename, and so does resolve_renamed (repeated runs of the real binary write Item or the
      other crate's rename); the Python class sees only rust name -> generated name and misses it. import_workspace
-     plants that shape in about 8% of the workspaces, so the disagreement counter is exercised: with the Python
-     class as judge these would be false violations. Python has no per-file class (the generator makes no such file)."""
+     plants that shape in about 8% of the workspaces and directed_import_workspaces (the first workspaces of every run:
+     one per class, plus the imports of serde-renamed types that left class 2 with the /repo fix of C14-renamed-import)
+     has one, so the disagreement counter is exercised: with the Python class as judge these would be false violations. Python has no per-file class (the generator makes no such file)."""
 import concurrent.futures, hashlib, itertools, json, os, pathlib, shutil, subprocess
 import vf, progs, back
 from vf import S, Lst
@@ -86,8 +89,11 @@ def imports_ambiguity(app_imports, defs, importer='app'):
     """Declarative class of inputs on which the unchanged code resolves through a HashSet/HashMap iteration.
     app_imports: set of (crate, name), name '*' for a glob: the imports that survive per file (explicit imports of names the file's
     types mention, and all globs), merged over the files of the importing crate;  defs: crate -> {rust name: generated name}.
-    An explicit import (c, n) contributes an import line for crate c when c generates a type NAMED n (generated names), otherwise the
-    fallback takes the first crate in HashMap order that generates a type named n. Returns a class name or None.
+    An explicit import (c, n) is first put back under the name crate c GENERATES its n under (reconcile.rs:71, the /repo fix of
+    finding C14-renamed-import: `use alpha::Item;` with Item serde-renamed AlphaItem is the import (alpha, AlphaItem); as in
+    Spec.C06MultiSpec.renamed_imports); it then contributes an import line for crate c when c generates a type NAMED that
+    (generated names), otherwise the fallback takes the first crate in HashMap order that generates a type so named. Returns a class
+    name or None.
     A glob import (c, '*') brings in every type of c whatever else is imported (since the /repo fix of language/mod.rs:472 it creates
     its own entry; before, it only extended an entry another import resolving to c had made, in iteration order: that was a third
     class here, glob-import-next-to-an-import-resolving-to-the-same-crate).  A glob takes no part in rename resolution or in the
@@ -95,10 +101,11 @@ def imports_ambiguity(app_imports, defs, importer='app'):
     explicit = sorted(i for i in app_imports if i[1] != '*')
     targets = {}
     for (c, n) in explicit:
-        if n in set(defs.get(c, {}).values()):
+        g = defs.get(c, {}).get(n, n)          # the import as used_imports sees it: (c, generated name of c's n)
+        if g in set(defs.get(c, {}).values()):
             targets[(c, n)] = {c}
         else:
-            targets[(c, n)] = {k for k, d in defs.items() if k != importer and n in set(d.values())}
+            targets[(c, n)] = {k for k, d in defs.items() if k != importer and g in set(d.values())}
     # serde-rename resolution: first import of the name whose crate renames it
     for n in sorted({n for _, n in explicit}):
         renames = {defs[c][n] for (c, m) in explicit if m == n and c in defs and n in defs[c] and defs[c][n] != n}
@@ -207,11 +214,64 @@ def import_workspace(rng):
                 ns = rng.sample(free, 2)
                 uses.append(f'use {c}::{{{ns[0]}, {ns[1]}}};')
                 local |= {(c, ns[0]), (c, ns[1])}
+        # an import that does not resolve in the crate it names - an unknown (re-exporting) crate `zz`, or a library crate that
+        # generates no type of that name - goes to the fallback; with two or more crates generating the name that is class 2.
+        # (Before the /repo fix of C14-renamed-import class 2 also arose from every import of a serde-renamed type; those resolve now.)
+        if rng.random() < 0.3:
+            taken = {m for (_, m) in local}
+            n = rng.choice(POOL)
+            if n not in taken:
+                lacking = [c for c in libs if n not in defs[c]]
+                x = rng.choice(lacking) if lacking and rng.random() < 0.5 else 'zz'
+                uses.append(f'use {x}::{n};')
+                local.add((x, n))
         refs = rng.sample(POOL, rng.randint(1, 3))
-        app_imports |= {(c, m) for (c, m) in local if m == '*' or m in refs}     # reconcile_referenced_types keeps only these
+        app_imports |={(c, m) for (c, m) in local if m == '*' or m in refs}     # reconcile_referenced_types keeps only these
         body = ''.join(f'    pub f{i}: {"Vec<" + n + ">" if rng.random() < 0.3 else n},\n' for i, n in enumerate(refs))
         files[f'app/src/m{k}.rs'] = '\n'.join(uses) + f'\n\n#[typeshare]\npub struct App{k} {{\n{body}}}\n'
     return {'files': files, 'ambiguity': imports_ambiguity(app_imports, defs)}
+
+
+def directed_import_workspaces():
+    """Hand-written workspaces that open part (c) in every run: one per class of the recorded finding C06-ambiguous-imports (so both are
+    exercised whatever the seed), and the shapes the /repo fix of finding C14-renamed-import moved OUT of class 2 - an import of a
+    serde-renamed type used to miss in its crate's type table and fall back by hash order; it is now put back under the generated name,
+    resolves, and must give one output in every run."""
+    def lib(c, types):                       # types: [(rust name, generated name)]
+        return ''.join('#[typeshare]\n' + (f'#[serde(rename = "{g.lstrip("=")}")]\n' if g != n else '') + f'pub struct {n} {{ pub {c}_{n.lower()}: u32 }}\n\n' for n, g in types)
+
+    def app(k, uses, refs):
+        body = ''.join(f'    pub f{i}: {t},\n' for i, t in enumerate(refs))
+        return '\n'.join(uses) + f'\n\n#[typeshare]\npub struct App{k} {{\n{body}}}\n'
+    out = []
+
+    def mk(lang_ix, libs, apps, imports):      # lang_ix: index into LANGS (import statements exist in TypeScript and Kotlin only)
+        files = {f'{c}/src/lib.rs': lib(c, ts) for c, ts in libs.items()}
+        for k, (uses, refs) in enumerate(apps):
+            files[f'app/src/m{k}.rs'] = app(k, uses, refs)
+        defs = {c: {n: g.lstrip('=') for n, g in ts} for c, ts in libs.items()}     # a generated name written '=N' is a no-op #[serde(rename = "N")] on N
+        out.append({'files': files, 'ambiguity': imports_ambiguity(set(imports), defs), 'lang_ix': lang_ix})
+    # class 1, the witness of KNOWN_FINDINGS C06-ambiguous-imports (Proofs/C06MultiWitness.v ws_amb)
+    mk(0, {'alpha': [('Item', 'AlphaItem')], 'beta': [('Item', 'BetaItem')]},
+       [(['use alpha::Item;'], ['Item']), (['use beta::Item;'], ['Vec<Item>'])], [('alpha', 'Item'), ('beta', 'Item')])
+    # class 1 where the two classes are KNOWN to differ (see the module docstring): a no-op rename on alpha's Node, beta renames its Node
+    mk(5, {'alpha': [('Node', '=Node')], 'beta': [('Node', 'TwinNode')]},
+       [(['use alpha::Node;'], ['Node']), (['use beta::Node;'], ['Node', 'Vec<Node>'])], [('alpha', 'Node'), ('beta', 'Node')])
+    # class 2: the crate named by the use is unknown (a re-export), two crates generate the name
+    mk(0, {'alpha': [('Leaf', 'Leaf')], 'beta': [('Item', 'Item')], 'gamma': [('Item', 'Item')]},
+       [(['use zz::Item;'], ['Item']), (['use alpha::Leaf;'], ['Leaf'])], [('zz', 'Item'), ('alpha', 'Leaf')])
+    # class 2: the crate named by the use generates no type of that name, two others do (one of them under a serde rename)
+    mk(1, {'alpha': [('Leaf', 'Leaf')], 'beta': [('Item', 'Item')], 'gamma': [('Thing', 'Item')]},
+       [(['use alpha::Item;', 'use alpha::Leaf;'], ['Item', 'Leaf'])], [('alpha', 'Item'), ('alpha', 'Leaf')])
+    # formerly class 2, unambiguous since the fix: alpha's Item is serde-renamed (its table holds AlphaItem), beta and gamma generate Item
+    for lang_ix in (0, 1):
+        mk(lang_ix, {'alpha': [('Item', 'AlphaItem')], 'beta': [('Item', 'Item')], 'gamma': [('Item', 'Item')]},
+           [(['use alpha::Item;'], ['Item', 'Vec<Item>'])], [('alpha', 'Item')])
+    # ... and two renamed imports from two crates under two different Rust names, next to a glob and an unrenamed import
+    mk(1, {'alpha': [('Item', 'AlphaItem'), ('Node', 'Node')], 'beta': [('Leaf', 'BetaLeaf'), ('Item', 'Item')], 'gamma': [('Edge', 'Edge'), ('AlphaItem', 'AlphaItem')]},
+       [(['use alpha::{Item, Node};'], ['Item', 'Node']), (['use beta::Leaf;', 'use gamma::*;'], ['Leaf', 'Edge'])],
+       [('alpha', 'Item'), ('alpha', 'Node'), ('beta', 'Leaf'), ('gamma', '*')])
+    return out
 
 
 def digest_dir(d):
@@ -416,15 +476,16 @@ def run(chk):
     nws = 30 if chk.tier == 'quick' else 200
     reps_c = 8 if chk.tier == 'quick' else 24
     wjobs, wmeta, wss = [], [], []
+    directed = directed_import_workspaces()
     for w in range(nws):
-        ws = import_workspace(rng)
+        ws = directed[w] if w < len(directed) else import_workspace(rng)
         root = work / f'ws{w}'
         for rel, src in ws['files'].items():
             f = root / rel
             f.parent.mkdir(parents=True, exist_ok=True)
             f.write_text(src)
         wss.append(ws)
-        lang, ext, extra, cfg = LANGS[[0, 1, 0, 5, 2, 4][w % 6]]
+        lang, ext, extra, cfg = LANGS[ws.get('lang_ix', [0, 1, 0, 5, 2, 4][w % 6])]
         ws['lang'] = lang
         for r in range(reps_c):
             wjobs.append((root, None, lang, ext, extra, True))
